@@ -1,8 +1,8 @@
 (* Lemmas about Model/AslEncoder.v (command_library.py) against the line model: every message an
    encoder builds is the frame of the intended request, and the simulator's handlers decode its
    parameter bytes to the encoder's arguments (part c10_as). *)
-From DS Require Import Base.Prelude Base.Bits Model.Utils Model.AslLine Model.AslEncoder
-  Proofs.UtilsProofs Proofs.AslFrameProofs Proofs.AslLineProofs.
+From DS Require Import Base.Prelude Base.Bits Model.Utils Model.AslLine Model.AslEncoder.
+From DS Require Import Proofs.UtilsProofs Proofs.AslFrameProofs Proofs.AslLineProofs.
 
 (* ---------- boolean equality on decode results, for finite sweeps ---------- *)
 
